@@ -77,6 +77,9 @@ func newScope(rootProvider *provider, parent *scope, ctx context.Context, cancel
 	// These need to be called when the scope is created
 	for _, descriptor := range rootProvider.voidReturnScopedDescriptors {
 		if _, err := s.createInstance(descriptor); err != nil {
+			// Dispose what earlier initializers created and cancel the derived context
+			_ = s.Close()
+
 			return nil, &ResolutionError{
 				ServiceType: descriptor.Type,
 				ServiceKey:  descriptor.Key,
